@@ -69,8 +69,8 @@ impl Prop for C14 {
     fn fuzz_decode(bytes: &[u8]) -> Option<Case> {
         crate::fuzzdec::c14(bytes)
     }
-    const RULE: &'static str = "clean texts of 0-6 words x 1-5 characters (code-point mode: arbitrary non-whitespace code points; grapheme mode: closed-pool clusters) x (p_ins, p_del) from {0, 0.05, 0.3, 0.7, 1}^2 minus (0,0) plus uniform draws x seed x use_graphemes x corrupted part x byte tokenizer with generated prefix/suffix; run through preprocessing(WhitespaceCorruption) and train_task(WhitespaceCorrection). Oracle: untouched part identical, same non-whitespace sequence, output clean, repair(operations(corrupted, original)) recovers the original, one label per character plus -1 on special positions, determinism in (text, seed) also on a fresh instance, p_del = 0 / p_ins = 0 laws, (0,0) rejected. Non-trivial: the output differs from the input by >= 1 insertion and >= 1 deletion and the text has a multi-byte character. Distinct = distinct serialised case.";
-    const ESSENTIAL: &'static [&'static str] = &["inserted", "deleted", "inserted+deleted", "p_del_0", "p_ins_0", "unchanged", "graphemes", "code_points", "prefix_suffix", "rejected_0_0"];
+    const RULE: &'static str = "clean texts of 0-6 words x 1-5 characters (code-point mode: arbitrary non-whitespace code points; grapheme mode: closed-pool clusters; one case in eight mixes in segmentation hazards - lone regional indicators, jamo, ZWJ, combining marks - where only the clauses that do not re-segment the corrupted text are asserted) x (p_ins, p_del) from {0, 0.05, 0.3, 0.7, 1}^2 minus (0,0) plus uniform draws x seed x use_graphemes x corrupted part x byte tokenizer with generated prefix/suffix; run through preprocessing(WhitespaceCorruption) and train_task(WhitespaceCorrection). Oracle: untouched part identical, same non-whitespace sequence, output clean, repair(operations(corrupted, original)) recovers the original, one label per character plus -1 on special positions, determinism in (text, seed) also on a fresh instance, p_del = 0 / p_ins = 0 laws, (0,0) rejected. Non-trivial: the output differs from the input by >= 1 insertion and >= 1 deletion and the text has a multi-byte character. Distinct = distinct serialised case.";
+    const ESSENTIAL: &'static [&'static str] = &["inserted", "deleted", "inserted+deleted", "p_del_0", "p_ins_0", "unchanged", "graphemes", "code_points", "prefix_suffix", "rejected_0_0", "unstable_mixed_free"];
 
     fn budget(tier: Tier) -> Budget {
         match tier {
@@ -83,7 +83,12 @@ impl Prop for C14 {
         let p = || prop_oneof![4 => select(vec![0.0f64, 0.05, 0.3, 0.7, 1.0]), 1 => 0.0f64..=1.0];
         (any::<bool>(), special_cfg())
             .prop_flat_map(move |(g, special)| {
-                (gen::clean_text(g, 6, 5), p(), p(), any::<u64>(), any::<bool>(), byte_kind())
+                let text = if g {
+                    prop_oneof![7 => gen::clean_text(true, 6, 5), 1 => gen::hazard_clean_text(5, 4)].boxed()
+                } else {
+                    gen::clean_text(false, 6, 5)
+                };
+                (text, p(), p(), any::<u64>(), any::<bool>(), byte_kind())
                     .prop_map(move |(text, p_ins, p_del, seed, corrupt_target, kind)| Case {
                         text,
                         p_ins,
@@ -100,7 +105,7 @@ impl Prop for C14 {
 
     fn assumptions() -> Vec<String> {
         vec![
-            "grapheme mode uses closed-pool clusters (KF2 is the recorded finding for texts whose clusters fuse when a space disappears)".into(),
+            "grapheme mode: every clause on closed-pool clusters; on unstable texts without a mixed cluster everything except operations/repair/labels and the cluster-level sequence (KF2 is the recorded finding for texts whose clusters fuse when a space disappears)".into(),
             "the (0,0) configuration is rejected by an assertion at construction time; the panic is the rejection".into(),
             "the byte tokenizer of the task ignores special-token spellings in the text (tokenize(.., true)), as the task does".into(),
         ]
@@ -110,9 +115,20 @@ impl Prop for C14 {
         let mut out = Outcome::new();
         let g = c.graphemes;
         out.label(if g { "graphemes" } else { "code_points" });
-        if g && !strict && !gen::is_stable(&c.text) {
-            out.discard = Some("unstable_in_grapheme_mode");
-            return out;
+        // grapheme mode outside the segmentation-stable domain: texts without a mixed cluster are
+        // inside the quantifier; the clauses that do not re-segment the corrupted text are
+        // asserted there (untouched part, determinism, same non-whitespace code points,
+        // code-point-level cleanliness, the p = 0 laws); operations/repair/labels are where
+        // KF2 lives and are left out
+        let unstable = g && !strict && !gen::is_stable(&c.text);
+        if unstable {
+            let mixed = gen::clusters(&c.text, true).iter().any(|u| u.chars().any(char::is_whitespace) && !u.chars().all(char::is_whitespace));
+            if mixed || clean(&c.text, false) != c.text {
+                out.discard = Some("mixed_cluster_in_grapheme_mode");
+                return out;
+            }
+            out.label("unstable_mixed_free");
+            out.label("kf2_class_excluded_from_inverse_clauses");
         }
         ensure!(out, clean(&c.text, g) == c.text, "harness generated an unclean text {:?}", c.text);
         let part = if c.corrupt_target { Part::Target } else { Part::Input };
@@ -152,6 +168,21 @@ impl Prop for C14 {
         let units = |t: &str| -> Vec<String> {
             gen::clusters(t, g).into_iter().filter(|u| !u.chars().all(char::is_whitespace)).map(str::to_string).collect()
         };
+        if unstable {
+            let cps = |t: &str| t.chars().filter(|ch| !ch.is_whitespace()).collect::<String>();
+            ensure!(out, cps(corrupted) == cps(&c.text), "non-whitespace code points changed: {:?} -> {corrupted:?}", c.text);
+            ensure!(out, clean(corrupted, false) == *corrupted, "corrupted text {corrupted:?} is not whitespace-clean");
+            out.label_if(*corrupted == c.text, "unchanged");
+            if c.p_del <= 0.0 {
+                out.label("p_del_0");
+                ensure!(out, by_deleting_spaces(corrupted, &c.text), "p_del = 0 but whitespace disappeared: {:?} -> {corrupted:?}", c.text);
+            }
+            if c.p_ins <= 0.0 {
+                out.label("p_ins_0");
+                ensure!(out, by_deleting_spaces(&c.text, corrupted), "p_ins = 0 but whitespace appeared: {:?} -> {corrupted:?}", c.text);
+            }
+            return out;
+        }
         ensure!(out, units(corrupted) == units(&c.text), "non-whitespace character sequence changed: {:?} -> {corrupted:?}", c.text);
         ensure!(out, clean(corrupted, g) == *corrupted, "corrupted text {corrupted:?} is not whitespace-clean");
         let ops = match operations(corrupted, &c.text, g) {
